@@ -52,18 +52,22 @@ Proof.
   intros m s p s' r a H. unfold go in H.
   destruct p as [ | k | k | | | r0]; try discriminate.
   - destruct (send_lock s); try discriminate.
-    destruct k as [ | | v]; destruct (wbio s) as [| w0 w]; cbn in H;
-      try (destruct (recv_lock s)); try (inversion H; subst; eauto; fail).
+    destruct k as [ | | v]; destruct (wbio s) as [| w0 w]; cbn in H; try (inversion H; subst; eauto; fail).
   - destruct (recv_lock s); inversion H.
 Qed.
 
-Lemma settle_end_ssl : forall m s p s' e a, settle m s p = (s', PEnd (RSsl e), a) -> p = PEnd (RSsl e).
+Lemma settle_n_end_ssl : forall fuel m s p s' e a, settle_n fuel m s p = (s', PEnd (RSsl e), a) -> p = PEnd (RSsl e).
 Proof.
-  intros m s p s' e a H. unfold settle in H.
-  destruct (go m s p) as [[[s1 p1] a1] |] eqn:G.
-  - inversion H; subst. apply go_end in G. destruct G as [v Hv]. discriminate.
-  - inversion H; subst. reflexivity.
+  induction fuel as [| f IH]; intros m s p s' e a H; cbn in H.
+  - inversion H; reflexivity.
+  - destruct (go m s p) as [[[s1 p1] a1] |] eqn:G.
+    + destruct (settle_n f m s1 p1) as [[s2 p2] a2] eqn:S2. inversion H; subst.
+      apply IH in S2. subst p1. apply go_end in G. destruct G as [v Hv]. discriminate.
+    + inversion H; reflexivity.
 Qed.
+
+Lemma settle_end_ssl : forall m s p s' e a, settle m s p = (s', PEnd (RSsl e), a) -> p = PEnd (RSsl e).
+Proof. intros m s p s' e a. apply settle_n_end_ssl. Qed.
 
 Lemma step_end_ssl : forall m b s p l s' e a,
   step m b s p l = Some (s', PEnd (RSsl e), a) -> exists x, l = LSsl x /\ a_out x = SErr e.
@@ -157,6 +161,9 @@ Qed.
 
 (* ------------------------------------------------------------------ closing sends the close notification first *)
 
+Lemma settle_PCall : forall m s, settle m s PCall = (s, PCall, []).
+Proof. reflexivity. Qed.
+
 Lemma aclose_first_action : forall st a answers st' ob rest,
   closing st = false -> tr_closing st = false -> send_lock (sh st) = false ->
   a_meth a = MUnwrap -> a_arg a = 0 ->
@@ -169,29 +176,25 @@ Proof.
   intros st a answers st' ob rest Hc Ht Hl Hm Harg Hout Hne H.
   assert (Hp : aclose_unwrap_if_std = true) by reflexivity.
   unfold run_op in H. rewrite Hc, Ht, Hp in H. cbn [negb andb] in H.
-  unfold run_method, start, settle in H.
-  cbn [pcall go] in H.
-  cbn [retry] in H.
-  unfold step in H. rewrite Hm, Harg in H. cbn [meth_eqb expected_arg Nat.eqb andb negb] in H.
+  unfold run_method, start in H. change (pcall MUnwrap (sh st)) with PCall in H.
+  rewrite settle_PCall in H. rewrite retry_cons in H by (intros r; discriminate).
   remember (wbio (sh st) ++ a_wdelta a) as w eqn:Ew.
   assert (Hgo : forall k, match k with KLoop => False | _ => True end ->
             settle MUnwrap (set_wbio (sh st) w) (PFlush k)
             = (set_send_lock (set_wbio (set_wbio (sh st) w) []) true, PSending k, [ASend w])).
-  { intros k Hk. unfold settle, go. cbn [send_lock set_wbio wbio]. rewrite Hl.
+  { intros k Hk. unfold settle. cbn [settle_n go]. cbn [send_lock set_wbio wbio]. rewrite Hl.
     destruct w as [| w0 w']; [congruence |]. destruct k; try contradiction; reflexivity. }
-  destruct Hout as [[v Hv] | Hwr].
-  - rewrite Hv in H. rewrite (Hgo (KRet v) I) in H.
-    destruct (retry MUnwrap 0 _ (PSending (KRet v)) answers) as [[[s3 r] a3] rest3].
-    cbn [app] in H.
-    destruct r as [v' | e | | | [|] | ]; try destruct (existsb _ _);
-      inversion H; subst; eexists; (split; [reflexivity |]);
-      rewrite ?in_app_iff; cbn; auto 10.
-  - rewrite Hwr in H. rewrite (Hgo KRead I) in H.
-    destruct (retry MUnwrap 0 _ (PSending KRead) answers) as [[[s3 r] a3] rest3].
-    cbn [app] in H.
-    destruct r as [v' | e | | | [|] | ]; try destruct (existsb _ _);
-      inversion H; subst; eexists; (split; [reflexivity |]);
-      rewrite ?in_app_iff; cbn; auto 10.
+  assert (Hstep : exists k, match k with KLoop => False | _ => True end /\
+            step MUnwrap 0 (sh st) PCall (LSsl a) = Some (set_wbio (sh st) w, PFlush k, [])).
+  { destruct Hout as [[v Hv] | Hwr].
+    - exists (KRet v). split; [exact I |]. unfold step. rewrite Hm, Harg, Hv, <- Ew. reflexivity.
+    - exists KRead. split; [exact I |]. unfold step. rewrite Hm, Harg, Hwr, <- Ew. reflexivity. }
+  destruct Hstep as [k [Hk Hst]]. rewrite Hst, (Hgo k Hk) in H.
+  destruct (retry MUnwrap 0 _ (PSending k) answers) as [[[s3 r] a3] rest3].
+  cbn [app] in H.
+  destruct r as [v' | e | | | [|] | ]; try destruct (existsb _ _);
+    inversion H; subst; eexists; (split; [reflexivity |]);
+    rewrite ?in_app_iff; cbn; auto 10.
 Qed.
 
 Lemma nonstd_close_no_unwrap : forall st answers,
